@@ -29,8 +29,13 @@ class Feature:
         h5group = h5parent.open_group(id_)
         h5group.set_attr("entity_id", id_)
         newfeature = cls(nixfile, nixparent, h5group)
-        newfeature.link_type = link_type
-        newfeature.data = data
+        try:
+            newfeature.link_type = link_type
+            newfeature.data = data
+        except Exception:
+            # data of the wrong kind / from another block: no feature
+            del h5parent[id_]
+            raise
         newfeature._h5group.set_attr("created_at",
                                      util.time_to_str(util.now_int()))
         newfeature._h5group.set_attr("updated_at",
